@@ -75,7 +75,7 @@ Definition safe_op (rb : list op) (din dout : db) (o : op) : bool :=
 Definition only_clean (o : op) : bool := match o with OClean _ => true | _ => false end.
 (* operations of _postprocess that cannot report a failure *)
 Definition cannot_fail (o : op) : bool :=
-  match o with OAdd _ _ _ _ _ _ => false | OAddUnreg _ _ _ _ _ => false | OExpand _ _ _ => false | OFail => false | _ => true end.
+  match o with OAdd _ _ _ _ _ _ => false | OAddUnreg _ _ _ _ _ _ _ => false | OWithNc _ _ => false | OExpand _ _ _ => false | OFail => false | _ => true end.
 
 Definition wf_atomic (c : calc) (din dout : db) : bool :=
   is_nil (k_init c) &&
@@ -91,7 +91,7 @@ Definition which_eqb (a b : which) : bool :=
 Definition slot_ok (pre : list op) (w : which) (slot : nat) : bool :=
   forallb (fun o => match o with
                     | OAdd w' _ _ _ _ sl => negb (Nat.eqb sl slot) || which_eqb w w'
-                    | OAddUnreg _ _ _ sl _ => negb (Nat.eqb sl slot)
+                    | OAddUnreg _ _ _ _ _ sl _ => negb (Nat.eqb sl slot)
                     | _ => true
                     end) pre.
 Definition safe_pre_s (din dout : db) (o : op) : bool :=
